@@ -564,6 +564,18 @@ def r_hex_sink(cx, fx):
                   "from_str_radix input is validated with is_ascii_hexdigit in the same function" if validated else
                   "from_str_radix accepts a leading '+' / '-' : the digit pairs are not validated with is_ascii_hexdigit, "
                   "so e.g. '+F'x is decoded as a hex pair")
+    # the bytes are turned into text by the Latin-1 decoder (the property names the encoding)
+    dec = []
+    for fname, b in fx.bodies.items():
+        if fx.is_derive(fname) or not any(x.get("k") == "Call" and (x.get("def") or "").endswith("from_str_radix") for x, _ in F.walk(b["hir"])):
+            continue
+        for x, par in F.walk(b["hir"]):
+            if x.get("k") == "MethodCall" and x.get("name") == "decode" and "encoding" in (x.get("def") or ""):
+                dec.append((fname, F.const_of(F.strip(x["recv"])) or repr(F.strip(x["recv"]).get("k")), F.file_line(F.site(x))))
+    okd = bool(dec) and all(d[1] is not None and d[1].endswith("::ISO_8859_1") for d in dec)
+    cx.ob(rule, "decoder|latin1", okd, dec[0][2] if dec else "",
+          "hex string bytes are decoded with encoding::all::ISO_8859_1 (byte-wise Latin-1)" if okd else
+          "hex string bytes are decoded with %s, not ISO_8859_1: bytes 0x80-0x9F (and others) map to different characters" % [d[1] for d in dec])
     cx.count(rule, "sinks", n)
 
 
